@@ -380,3 +380,42 @@ M("C07", "C07-DATA", DH, "        if rv_unit is None:\n            rv_unit = d.r
 M("C07", "C07-DATA", SM, "            s_vars = self[\"s\"].to_value(data_unit) ** 2\n", "            s_vars = self[\"s\"].value ** 2\n", "jitter stripped in its own unit")
 M("C07", "C07-INV", SM, "        data_rv = data.rv.value\n", "        data_rv = data.rv.value\n        _scale = data.rv_err.value.mean()\n", "a new unclassified strip site")
 T("C07", PR, "UniformLog(\"P\", P_min.value, P_max.to_value(P_min.unit)), P_min.unit", "UniformLog(\"P\", P_min.value, P_max.to(P_min.unit).value), P_min.unit", "to(...).value instead of to_value")
+
+# ---------------------------------------------------------------- C01
+M("C01", "C01-JIT", PYX, "self.Ainv[i, j] += (self.M_T[j, n] * self.s_ivar[n]", "self.Ainv[i, j] += (self.M_T[j, n] * self.ivar[n]", "Ainv accumulates the raw weights (reverse of fix)")
+M("C01", "C01-JIT", PYX, "            self.B[n, n] = 1 / self.s_ivar[n]", "            self.B[n, n] = 1 / self.ivar[n]", "B diagonal without jitter (reverse of fix)")
+M("C01", "C01-JIT", PYX, "        new_ivar[i] = ivar[i] / (1 + s*s * ivar[i])\n", "        new_ivar[i] = ivar[i] / (1 + s * ivar[i])\n", "fold uses s instead of s^2")
+M("C01", "C01-JIT", PYX, "            get_ivar(self.ivar, chunk[n, 4], self.s_ivar)\n\n            # TODO: this is a continuation of the massive hack introduced above.\n            if self.fixed_K_prior == 0:\n                self.Lambda[0] = (self.sigma_K0**2 / (1 - e**2)\n                                  * (P / self.P0)**(-2/3.))\n                self.Lambda[0] = min(self.max_K**2, self.Lambda[0])\n\n            # compute things needed for the ln(likelihood)",
+  "            # TODO: this is a continuation of the massive hack introduced above.\n            if self.fixed_K_prior == 0:\n                self.Lambda[0] = (self.sigma_K0**2 / (1 - e**2)\n                                  * (P / self.P0)**(-2/3.))\n                self.Lambda[0] = min(self.max_K**2, self.Lambda[0])\n\n            # compute things needed for the ln(likelihood)", "fold call deleted from the marginal prologue")
+M("C01", "C01-JIT", PYX, "            get_ivar(self.ivar, chunk[n, 4], self.s_ivar)\n\n            # TODO: this is a continuation of the massive hack introduced above.\n            if self.fixed_K_prior == 0:\n                self.Lambda[0] = (self.sigma_K0**2 / (1 - e**2)\n                                  * (P / self.P0)**(-2/3.))\n                self.Lambda[0] = min(self.max_K**2, self.Lambda[0])\n\n            # compute things needed for the ln(likelihood)",
+  "            get_ivar(self.ivar, chunk[n, 3], self.s_ivar)\n\n            # TODO: this is a continuation of the massive hack introduced above.\n            if self.fixed_K_prior == 0:\n                self.Lambda[0] = (self.sigma_K0**2 / (1 - e**2)\n                                  * (P / self.P0)**(-2/3.))\n                self.Lambda[0] = min(self.max_K**2, self.Lambda[0])\n\n            # compute things needed for the ln(likelihood)", "fold reads the M0 column as jitter")
+T("C01", PYX, "        new_ivar[i] = ivar[i] / (1 + s*s * ivar[i])\n", "        new_ivar[i] = ivar[i] / (s*s*ivar[i] + 1)\n", "fold denominator reordered")
+T("C01", PYX, "        new_ivar[i] = ivar[i] / (1 + s*s * ivar[i])\n", "        new_ivar[i] = 1 / (1 / ivar[i] + s**2)\n", "fold written as 1/(sigma^2 + s^2)")
+M("C01", "C01-SLOT", PYX, "            self.mu[2+i] = mu\n            self.Lambda[2+i] = std ** 2\n", "            self.mu[1+i] = mu\n            self.Lambda[1+i] = std ** 2\n", "offset slots start at 1")
+M("C01", "C01-SLOT", PYX, "            self.mu[2+i] = mu\n            self.Lambda[2+i] = std ** 2\n", "            self.mu[2+i] = mu\n            self.Lambda[2+i] = std\n", "offset variance not squared")
+M("C01", "C01-SLOT", PYX, "            elif name == 'K' or name == 'v0':\n", "            elif name == 'v0':\n", "custom K prior falls into the trend branch (reverse of fix)")
+M("C01", "C01-SLOT", PYX, "                j = i + self.n_offsets\n", "                j = i + self.n_offsets - 1\n", "trend slots shifted by one")
+M("C01", "C01-SLOT", PYX, "                self.M_T[i, n] = trend_M[n, i-1]\n", "                self.M_T[i, n] = trend_M[n, i]\n", "design-matrix rows shifted")
+T("C01", PYX, "            else:  # v1, v2, etc.\n                j = i + self.n_offsets\n                self.Lambda[j] = std ** 2\n                self.mu[j] = mu\n", "            else:  # v1, v2, etc.\n                self.Lambda[self.n_offsets + i] = std * std\n                self.mu[self.n_offsets + i] = mu\n", "trend branch without the temporary")
+M("C01", "C01-KVAR", PYX, "                                  * (P / self.P0)**(-2/3.))\n                self.Lambda[0] = min(self.max_K**2, self.Lambda[0])\n\n            # compute things needed for the ln(likelihood)", "                                  * (P / self.P0)**(-1/3.))\n                self.Lambda[0] = min(self.max_K**2, self.Lambda[0])\n\n            # compute things needed for the ln(likelihood)", "period exponent -1/3 in the variance")
+M("C01", "C01-KVAR", PYX, "                self.Lambda[0] = min(self.max_K**2, self.Lambda[0])\n\n            # compute things needed for the ln(likelihood)", "                self.Lambda[0] = min(self.max_K, self.Lambda[0])\n\n            # compute things needed for the ln(likelihood)", "cap not squared")
+M("C01", "C01-KVAR", PYX, "                self.Lambda[0] = min(self.max_K**2, self.Lambda[0])\n\n            # compute things needed for the ln(likelihood)", "\n            # compute things needed for the ln(likelihood)", "cap deleted on the marginal path")
+T("C01", PYX, "                self.Lambda[0] = (self.sigma_K0**2 / (1 - e**2)\n                                  * (P / self.P0)**(-2/3.))\n                self.Lambda[0] = min(self.max_K**2, self.Lambda[0])\n\n            # compute things needed for the ln(likelihood)",
+  "                self.Lambda[0] = (self.sigma_K0*self.sigma_K0 * (self.P0 / P)**(2/3.) / (1 - e*e))\n                self.Lambda[0] = min(self.max_K**2, self.Lambda[0])\n\n            # compute things needed for the ln(likelihood)", "variance rule rewritten equivalently")
+M("C01", "C01-ARGS", PYX, "            e = chunk[n, 1]\n            om = chunk[n, 2]\n            M0 = chunk[n, 3]\n\n            c_rv_from_elements(&self.t[0], &self.M_T[0, 0], self.n_times,\n                               P, 1., e, om, M0, self.t0,\n                               anomaly_tol, anomaly_maxiter)\n\n            # Note: jitter must be in same units as the data RV's / ivar\n            get_ivar(self.ivar, chunk[n, 4], self.s_ivar)\n\n            # TODO: this is a continuation of the massive hack introduced above.\n            if self.fixed_K_prior == 0:\n                self.Lambda[0] = (self.sigma_K0**2 / (1 - e**2)\n                                  * (P / self.P0)**(-2/3.))\n                self.Lambda[0] = min(self.max_K**2, self.Lambda[0])\n\n            # compute things needed",
+  "            e = chunk[n, 2]\n            om = chunk[n, 1]\n            M0 = chunk[n, 3]\n\n            c_rv_from_elements(&self.t[0], &self.M_T[0, 0], self.n_times,\n                               P, 1., e, om, M0, self.t0,\n                               anomaly_tol, anomaly_maxiter)\n\n            # Note: jitter must be in same units as the data RV's / ivar\n            get_ivar(self.ivar, chunk[n, 4], self.s_ivar)\n\n            # TODO: this is a continuation of the massive hack introduced above.\n            if self.fixed_K_prior == 0:\n                self.Lambda[0] = (self.sigma_K0**2 / (1 - e**2)\n                                  * (P / self.P0)**(-2/3.))\n                self.Lambda[0] = min(self.max_K**2, self.Lambda[0])\n\n            # compute things needed", "e and omega columns swapped on the marginal path")
+M("C01", "C01-ARGS", PYX, "                               P, 1., e, om, M0, self.t0,\n                               anomaly_tol, anomaly_maxiter)\n\n            # Note: jitter must be in same units as the data RV's / ivar\n            get_ivar(self.ivar, chunk[n, 4], self.s_ivar)\n\n            # TODO: this is a continuation of the massive hack introduced above.\n            if self.fixed_K_prior == 0:\n                self.Lambda[0] = (self.sigma_K0**2 / (1 - e**2)\n                                  * (P / self.P0)**(-2/3.))\n                self.Lambda[0] = min(self.max_K**2, self.Lambda[0])\n\n            # compute things needed",
+  "                               P, 1., e, M0, om, self.t0,\n                               anomaly_tol, anomaly_maxiter)\n\n            # Note: jitter must be in same units as the data RV's / ivar\n            get_ivar(self.ivar, chunk[n, 4], self.s_ivar)\n\n            # TODO: this is a continuation of the massive hack introduced above.\n            if self.fixed_K_prior == 0:\n                self.Lambda[0] = (self.sigma_K0**2 / (1 - e**2)\n                                  * (P / self.P0)**(-2/3.))\n                self.Lambda[0] = min(self.max_K**2, self.Lambda[0])\n\n            # compute things needed", "omega and M0 swapped at the Kepler call")
+M("C01", "C01-ARGS", PYX, "        self.t0 = data._t_ref_bmjd\n", "        self.t0 = 0.\n", "kernel reference epoch zero")
+M("C01", "C01-TENSOR", PYX, "                        self.Binv[n, m] -= (self.s_ivar[n] * self.M_T[i, n]", "                        self.Binv[n, m] += (self.s_ivar[n] * self.M_T[i, n]", "Woodbury sign")
+M("C01", "C01-TENSOR", PYX, "        return -0.5 * (chi2 + log_det_val)\n", "        return -0.5 * chi2 + log_det_val\n", "log-determinant not halved / wrong sign")
+M("C01", "C01-TENSOR", PYX, "            log_det_val += log(2*pi * fabs(self.Btmp[i, i]))\n", "            log_det_val += log(fabs(self.Btmp[i, i]))\n", "2 pi dropped from the normalisation")
+M("C01", "C01-TENSOR", PYX, "                    self.B[n, m] += (self.M_T[i, n] * self.Lambda[i]\n                                     * self.M_T[i, m])", "                    self.B[n, m] += (self.M_T[i, n]\n                                     * self.M_T[i, m])", "Lambda dropped from B")
+M("C01", "C01-TENSOR", PYX, "                chi2 += ((self.b[m] - self.rv[m])\n                         * self.Binv[n, m]\n                         * (self.b[n] - self.rv[n]))", "                chi2 += ((self.b[m] - self.rv[m])\n                         * self.Binv[n, m]\n                         * (self.b[n] + self.rv[n]))", "chi2 residual sign")
+M("C01", "C01-TENSOR", PYX, "                self.b[n] += self.M_T[i, n] * self.mu[i]\n", "                self.b[n] += self.M_T[i, n] * self.Lambda[i]\n", "prior mean vector built from the variances")
+M("C01", "C01-TENSOR", PYX, "            self.Ainv[i, i] = 1 / self.Lambda[i]\n", "            self.Ainv[i, i] = self.Lambda[i]\n", "prior precision not inverted")
+T("C01", PYX, "                    self.Ainv[i, j] += (self.M_T[j, n] * self.s_ivar[n]\n                                        * self.M_T[i, n])", "                    self.Ainv[i, j] += (self.M_T[i, n] * self.M_T[j, n]\n                                        * self.s_ivar[n])", "factors of a product reordered")
+M("C01", "C01-UNIT", PYX, "                self.P0 = dist._P0.to_value(self.internal_units['P'])", "                self.P0 = dist._P0.to_value(getattr(prior.pars['P'],\n                                                    xu.UNIT_ATTR_NAME))", "P0 unit (reverse of fix)")
+M("C01", "C01-DESIGN", LH, "    trend_M = np.vander(dt, N=poly_trend, increasing=True)[:, 1:]\n", "    trend_M = np.vander(dt, N=poly_trend)[:, :-1]\n", "trend columns in decreasing power order (poly_trend >= 3)")
+M("C01", "C01-DESIGN", PR, "        self.v0_offsets = v0_offsets\n", "        self.v0_offsets = sorted(v0_offsets, key=lambda p: p.name)\n", "offset priors sorted by name (seeded C01-A)")
+M("C01", "C01-ENTRY", PYX, "            ll[n] = self.likelihood_worker(0)\n", "            ll[0] = self.likelihood_worker(0)\n", "every value written to slot 0")
